@@ -39,6 +39,26 @@ def event_name(kind, detail):
     return "call %s" % detail.name
 
 
+def _awaits_ready_future(facts, b, tr, ybb):
+    """the future awaited at this yield is an operation on an in-memory Cursor (async_std::io::Cursor completes every
+    read/write/seek on the first poll: the await never suspends)"""
+    doms = tr.cfg.dominating_blocks(ybb)
+    for d in doms:   # nearest first
+        t = b.blocks[d].term
+        if t.kind == "call" and short(t.callee() or "") == "IntoFuture::into_future" and t.args:
+            x = strip(tr.operand(t.args[0]))
+            if x[0] == "call" and isinstance(x[1], str) and short(x[1]).split("::")[0] in ("SeekExt", "ReadExt", "WriteExt", "AsyncSeekExt", "AsyncReadExt", "AsyncWriteExt") and x[2]:
+                site = x[3] if len(x) > 3 else None
+                if site and site[0] == b.id:
+                    ct = b.blocks[site[1]].term
+                    a0 = ct.args[0] if ct.args else None
+                    if a0 is not None and a0.place is not None and a0.place.is_local():
+                        ty = b.local_ty(a0.place.local)
+                        return "Cursor<" in ty
+            return False
+    return False
+
+
 def run(facts, rep, tier, ctx):
     from ..pathflow import World
     run_world(facts, rep, tier, ctx, World(facts, False), rep)
@@ -93,6 +113,15 @@ def run_world(facts, rep, tier, ctx, w, rep0):
             rep.ob("R16.2", b.id, "guard of %s stays local" % ("%s-lock" % a.mode), not a.escapes,
                    "the lock guard is moved out of the function or could not be followed; its critical section is unbounded"
                    if a.escapes else "guard dropped in %d place(s)" % len(a.drops), a.line)
+            # an async guard must not be held across a suspension point: the task parks with the lock held, and the writer's
+            # Drop acquires the same lock *blocking* (block_on) — on the same executor thread that is a deadlock
+            if a.is_async:
+                ys = [bb for bb in sorted(a.region) if b.blocks[bb].term.kind == "yield" and not _awaits_ready_future(facts, b, tr, bb)]
+                rep.ob("R16.2", b.id, "%s guard is not held across an await" % a.mode, not ys,
+                       "no suspension point inside the region" if not ys else
+                       "the %s guard taken at %s is still alive at an .await (%s): the task can be suspended while holding the "
+                       "filesystem lock; a blocking acquisition from another task on the same thread (AsyncWritableFile::drop) "
+                       "then never returns" % (a.mode, a.line, b.blocks[ys[0]].term.line), b.blocks[ys[0]].term.line if ys else a.line)
             # events inside the region
             for bb in sorted(a.region):
                 blk = b.blocks[bb]
